@@ -1157,6 +1157,9 @@ class Emitter:
             if name in ("unwrap",) and not args: return "(EUnwrap %s)" % self.expr(recv)
             if name == "expect" and len(args) == 1: return "(EUnwrap %s)" % self.expr(recv)
             if name == "is_err" and not args: return "(EIsErr %s)" % self.expr(recv)
+            if name == "partial_cmp" and len(args) == 1 and recv[0] == "field" and recv[2] == "value":
+                # f32::partial_cmp on the numeric parts of two quantities
+                return "(EOp 13 [%s; %s])" % (self.expr(recv), self.expr(args[0]))
             if name == "const_eq" and len(args) == 1:
                 return "(EOp 40 [%s; %s])" % (self.expr(recv), self.expr(args[0]))
             if name == "eq_assume_true" and len(args) == 1:
